@@ -80,6 +80,18 @@ def run(ctx, out, pid, props, projection, n_quick, n_thorough, pool=None, weight
                 t = cands[ci % len(cands)]
                 case['late'] = [fdesc[0] for fdesc in kgen.TEMPLATES[t]]
                 st['late_feature_cases'] += 1
+        if ci % 5 == 2 and 'hold' not in case:
+            case['hold'] = True           # collection objects obtained once and kept across the whole history
+            st['held_collection_cases'] += 1
+        if ci % 11 == 6 and 'render' not in case and not case.get('render_mixed') and 'late' not in case \
+                and case.get('templates'):
+            # the two ends of a bidirectional pair are declared each other's opposite only AFTER every object has
+            # read every feature once (a metamodel completed at run time); the model has the pair from the start
+            cands = [t for t in case['templates'] if t in kgen.OPP_TEMPLATES and len(kgen.TEMPLATES[t]) == 2]
+            if cands:
+                t = cands[ci % len(cands)]
+                case['late_opposite'] = [kgen.TEMPLATES[t][0][0], kgen.TEMPLATES[t][1][0]]
+                st['late_opposite_cases'] += 1
         case['history'] = [op for op in case['history'] if op[0] in kmodel.MODELLED]
         case, r = clean_case(case, props, need_views)
         st['cases'] += 1
@@ -149,6 +161,8 @@ def run(ctx, out, pid, props, projection, n_quick, n_thorough, pool=None, weight
         'corpus_cases': st['corpus_cases'], 'focus_cases': st['focus_cases'],
         'cases_on_falsy_static_rendering': st['falsy_static_cases'],
         'cases_with_features_attached_at_run_time': st['late_feature_cases'],
+        'cases_with_opposites_declared_at_run_time': st['late_opposite_cases'],
+        'cases_with_collection_objects_held_across_calls': st['held_collection_cases'],
         'ops_by_kind': dict(ops_by_kind), 'outcomes_by_code': dict(outcomes),
         'templates_used': dict(tmpl_count), 'history_lengths': dict(hist_len),
         'projection_compared': sorted(projection), 'oracles': sorted(props),
